@@ -308,6 +308,7 @@ pub trait TypedIterable {
             self.recompute_rr(); // XXX - Just for sanity, but not strictly required here
             self.recompute_sections();
         }
+        let is_opt = section == Section::Additional && self.rr_type() == Type::OPT.into();
         let rr_len = self.offset_next()
             - self
                 .offset()
@@ -319,6 +320,14 @@ pub trait TypedIterable {
         self.invalidate();
         let parsed_packet = self.parsed_packet_mut();
         parsed_packet.cached = None;
+        if is_opt {
+            parsed_packet.offset_edns = None;
+            parsed_packet.edns_count = 0;
+            parsed_packet.ext_rcode = None;
+            parsed_packet.edns_version = None;
+            parsed_packet.ext_flags = None;
+            parsed_packet.max_payload = 512;
+        }
         let rrcount = parsed_packet.rrcount_dec(section)?;
         if rrcount <= 0 {
             let offset = match section {
